@@ -89,17 +89,9 @@ def run_history(part, hist):
                     if e is not exc:
                         part.violation('exception-identity', f'{hist}', det)
                         return
-                # a call that raised did not complete; the property only
-                # fixes what completed calls record, so accept either no
-                # sample or one sample of the elapsed time
-                try:
-                    tot = tr.get_trace(average=False).get(NAME[f], 0.0)
-                except Exception:  # noqa
-                    tot = None
-                base = sum(ref.get(NAME[f], []))
-                if tot == base + dur and tot != base:
-                    ref.setdefault(NAME[f], []).append(dur)
-                    part.count('raising_call_recorded')
+                # a call that raised did not complete: the samples are
+                # exactly those of completed calls, so the reference records
+                # nothing (the queries below compare)
             else:
                 try:
                     out = fns[f](dur, *args, **kwargs)
